@@ -31,5 +31,7 @@ SEEDED = [
     ("C15-5", "C15-RES"),
     ("C15-6", "C15-HOLD"),
     ("C15-7", "C15-SETTERS"),
+    ("C15-8", "C15-GLOBAL"),
+    ("C15-9", "C15-KEY"),
 ]
 MUTANTS = list(MUTANTS) + [_P("seed-" + sid, _os.path.join(_SEEDS, sid, "patch.diff"), rule) for sid, rule in SEEDED if _os.path.exists(_os.path.join(_SEEDS, sid, "patch.diff"))]
